@@ -155,6 +155,7 @@ Local Open Scope nat_scope.
 
 Section C11State.
   Variable N : Num.
+  Variable of_int : Z -> N.      (* the integer -> float cast of the custom codecs (`as f64`) *)
   Notation entries := (list (string * feature N)).
   Implicit Types (cfg sm : smodel N) (tm am : entries) (user : user_q N).
 
@@ -196,12 +197,12 @@ Section C11State.
   Theorem initial_state_length_and_values : forall cfg (s0 : entries) tm am user sm,
       SAbs cfg s0 -> NoDup (map fst (user_entries user)) ->
       build_search_instance cfg tm am user = Ok sm ->
-      exists st, initial_state N sm = Ok st
+      exists st, initial_state N of_int sm = Ok st
         /\ List.length st = len sm
         /\ (forall k i, get_index sm k = Some i ->
               exists f, SMS.final_feature s0 tm am (user_entries user) k = Some f
-                        /\ nth_error st i = Some (SMS.initial_value N f)).
-  Proof. exact (initial_state_lemma N). Qed.
+                        /\ nth_error st i = Some (SMS.initial_value N of_int f)).
+  Proof. exact (initial_state_lemma N of_int). Qed.
 
   Theorem override_keeps_slot : forall cfg (s0 : entries) tm am (u : entries) sm sm0,
       SAbs cfg s0 -> NoDup (map fst u) ->
@@ -333,15 +334,32 @@ Proof.
   split; [exact get_after_add_distance|]. split; [exact get_after_add_time | exact get_after_add_energy].
 Qed.
 
-(* the custom codecs return what was stored (integers within the range of their Rust type) *)
+(* the custom codecs: floats and booleans are read back exactly; an integer is read back as the code's two casts
+   leave it: rounded to 53 significant bits by `as f64` (ties to even; [round53], computed on Z), then saturated to
+   the range of its type by `as i64` / `as u64` ([clamp]).  Hence exactly for |z| <= 2^53, and the u64::MAX /
+   i64::MAX / i64::MIN sentinels survive the round trip (u64::MAX as f64 = 2^64, 2^64 as u64 = u64::MAX). *)
 Theorem custom_get_set_roundtrip : forall (sm : smodel QN) (st : list QN) name st',
     (forall x : Q, set_custom_f64 QN sm st name x = Ok st' -> get_custom_f64 QN sm st' name = Ok x)
-    /\ (forall z, (i64_min <= z <= i64_max)%Z ->
-                  set_custom_i64 QN sm st name z = Ok st' -> get_custom_i64 QN trunc_Q sm st' name = Ok z)
-    /\ (forall z, (0 <= z <= u64_max)%Z ->
-                  set_custom_u64 QN sm st name z = Ok st' -> get_custom_u64 QN trunc_Q sm st' name = Ok z)
+    /\ (forall z, set_custom_i64 QN of_int_Q sm st name z = Ok st' ->
+                  get_custom_i64 QN trunc_Q sm st' name = Ok (clamp i64_min i64_max (round53 z)))
+    /\ (forall z, (0 <= z)%Z -> set_custom_u64 QN of_int_Q sm st name z = Ok st' ->
+                  get_custom_u64 QN trunc_Q sm st' name = Ok (clamp 0 u64_max (round53 z)))
     /\ (forall b, set_custom_bool QN sm st name b = Ok st' -> get_custom_bool QN sm st' name = Ok b).
 Proof. exact custom_roundtrip. Qed.
+
+Theorem custom_integers_exact_up_to_2_53 :
+    (forall z, (Z.abs z <= 2 ^ 53)%Z -> clamp i64_min i64_max (round53 z) = z)
+    /\ (forall z, (0 <= z <= 2 ^ 53)%Z -> clamp 0 u64_max (round53 z) = z).
+Proof. split; [exact i64_small | exact u64_small]. Qed.
+
+Theorem custom_integer_range_ends :
+    (clamp 0 u64_max (round53 u64_max) = u64_max
+    /\ clamp i64_min i64_max (round53 i64_max) = i64_max
+    /\ clamp i64_min i64_max (round53 i64_min) = i64_min
+    /\ round53 (2 ^ 53 + 1) = 2 ^ 53 /\ round53 (2 ^ 53 + 3) = 2 ^ 53 + 4
+    /\ clamp 0 u64_max (round53 (u64_max - 1024)) = u64_max - 2047
+    /\ clamp 0 u64_max (round53 (u64_max - 1023)) = u64_max)%Z.
+Proof. exact range_ends. Qed.
 Local Close Scope Q_scope.
 
 (* statement pins *)
@@ -355,12 +373,12 @@ Check slots_bijective : forall (N : Num) (cfg : smodel N) (s0 tm am : list (stri
     /\ (forall i, i < len sm -> exists k, get_index sm k = Some i)
     /\ (forall k, get_index sm k <> None <-> In k (map fst s0) \/ In k (map fst tm) \/ In k (map fst am))
     /\ (forall k i, get_index cfg k = Some i -> get_index sm k = Some i).
-Check initial_state_length_and_values : forall (N : Num) (cfg : smodel N) (s0 tm am : list (string * feature N)) (user : user_q N) (sm : smodel N),
+Check initial_state_length_and_values : forall (N : Num) (of_int : Z -> N) (cfg : smodel N) (s0 tm am : list (string * feature N)) (user : user_q N) (sm : smodel N),
     SAbs cfg s0 -> NoDup (map fst (user_entries user)) -> build_search_instance cfg tm am user = Ok sm ->
-    exists st, initial_state N sm = Ok st /\ List.length st = len sm
+    exists st, initial_state N of_int sm = Ok st /\ List.length st = len sm
       /\ (forall k i, get_index sm k = Some i ->
             exists f, SMS.final_feature s0 tm am (user_entries user) k = Some f
-                      /\ nth_error st i = Some (SMS.initial_value N f)).
+                      /\ nth_error st i = Some (SMS.initial_value N of_int f)).
 
 (* ---- non-vacuity: 3 configured features, 3 from the traversal model (one of them re-declaring a configured
    one in another unit), 2 from the access model (one of them declared by the traversal model too), and a query
@@ -391,18 +409,18 @@ Section Example7State.
       /\ get_names sm = ["distance"; "time"; "energy_electric"; "trip_distance"; "battery_state"; "trip_time"; "stops"]
       /\ get_index sm "battery_state" = Some 4%nat /\ get_index sm "trip_time" = Some 5%nat
       /\ get_index sm "time" = Some 1%nat
-      /\ initial_state QN sm = Ok [0; 30; 0; 0; 55; 2; 3].
+      /\ initial_state QN of_int_Q sm = Ok [0; 30; 0; 0; 55; 2; 3].
   Proof. eexists. eexists. split; [vm_compute; reflexivity|]. repeat split. Qed.
 
   (* the same through the theorems *)
   Example ex7_by_theorem :
     forall sm, build_search_instance (new ex_cfg) ex_tm ex_am (USome ex_user) = Ok sm ->
       get_index sm "battery_state" = Some 4%nat
-      /\ exists st, initial_state QN sm = Ok st /\ nth_error st 4 = Some 55.
+      /\ exists st, initial_state QN of_int_Q sm = Ok st /\ nth_error st 4 = Some 55.
   Proof.
     intros sm H. destruct ex7_hypotheses as [Ha Hn].
     destruct (slots_bijective QN _ _ _ _ _ _ Ha Hn H) as (Hi & _).
-    destruct (initial_state_length_and_values QN _ _ _ _ _ _ Ha Hn H) as (st & Hst & _ & Hv).
+    destruct (initial_state_length_and_values QN of_int_Q _ _ _ _ _ _ Ha Hn H) as (st & Hst & _ & Hv).
     split; [rewrite Hi; reflexivity|]. exists st. split; [exact Hst|].
     destruct (Hv "battery_state" 4%nat) as (f & Hf & Hn4); [rewrite Hi; reflexivity|].
     vm_compute in Hf. injection Hf as <-. exact Hn4.
@@ -412,12 +430,12 @@ Section Example7State.
      10 * 1.60934 * 0.6215040398 miles; the other slots are untouched *)
   Definition ex_sm : smodel QN :=
     Eval vm_compute in match build_search_instance (new ex_cfg) ex_tm ex_am (USome ex_user) with Ok sm => sm | _ => empty end.
-  Definition ex_st : list Q := Eval vm_compute in match initial_state QN ex_sm with Ok st => st | _ => [] end.
+  Definition ex_st : list Q := Eval vm_compute in match initial_state QN of_int_Q ex_sm with Ok st => st | _ => [] end.
   Definition ex_st' : list Q :=
     Eval vm_compute in match set_distance QN ex_sm ex_st "distance" 10 Miles with Ok st => st | _ => [] end.
   Example ex7_roundtrip :
     build_search_instance (new ex_cfg) ex_tm ex_am (USome ex_user) = Ok ex_sm
-    /\ initial_state QN ex_sm = Ok ex_st
+    /\ initial_state QN of_int_Q ex_sm = Ok ex_st
     /\ set_distance QN ex_sm ex_st "distance" 10 Miles = Ok ex_st'
     /\ get_distance QN ex_sm ex_st' "distance" Miles
        = Ok (convert_distance QN Kilometers Miles (convert_distance QN Miles Kilometers 10))
@@ -444,6 +462,8 @@ Print Assumptions type_mismatch_is_error.
 Print Assumptions get_set_roundtrip.
 Print Assumptions get_after_add.
 Print Assumptions custom_get_set_roundtrip.
+Print Assumptions custom_integers_exact_up_to_2_53.
+Print Assumptions custom_integer_range_ends.
 Print Assumptions ex7_hypotheses.
 Print Assumptions ex7_state_model.
 Print Assumptions ex7_by_theorem.
